@@ -19,6 +19,9 @@ type Op struct {
 	Type  string // message type name
 	ID    string
 	Bytes []byte // marshaled message handed to Store
+	// Msg is the very message object that was handed to Store (only with KeepMsgs): what a storage that keeps
+	// the object, or marshals it later, would have
+	Msg   proto.Message
 	Err   string
 	Fault bool // the error was injected
 }
@@ -80,6 +83,8 @@ type Rec struct {
 	failKind string
 	count    int
 	fired    bool
+	// KeepMsgs makes Store remember the message object it was handed (Op.Msg)
+	KeepMsgs bool
 	// further faults of the same call (ArmMore): a second single position, and / or every operation from
 	// stickyFrom on (a storage that stays down)
 	failAt2    int
@@ -214,6 +219,13 @@ func (s *Rec) Store(ctx context.Context, m nodeenrollment.MessageWithId) error {
 	}
 	if err := s.pre("store", m, idOf(m), b); err != nil {
 		return err
+	}
+	if s.KeepMsgs && !nodeenrollment.IsNil(m) {
+		s.mu.Lock()
+		if n := len(s.ops); n > 0 {
+			s.ops[n-1].Msg = m
+		}
+		s.mu.Unlock()
 	}
 	err := s.inner.Store(ctx, m)
 	s.post(err)
